@@ -22,7 +22,8 @@ EXTENDS Integers, Sequences, FiniteSets, TLC, Json
 CONSTANTS
     Canon,          \* the canonical field order of the file: <<"score", "geom1", ..., "class">>
     InitTables,     \* set of admissible initial tables
-    Ops,            \* subset of {"swap", "write_motl", "write_emmotl", "load", "adopt"} enabled in this model
+    Ops,            \* subset of {"swap", "write_motl", "write_emmotl", "load", "adopt", "droprow", "duprows"} enabled
+    HdrSet,         \* header arguments offered to the EmMotl write path: subset of {"absent", "none", "empty", "other"}
     SwapPos,        \* column positions offered to SwapCols
     MaxDepth,
     EmitMode,       \* "none" | "hist" (complete behaviours through the hist variable)
@@ -97,12 +98,29 @@ SwapCols(i, j) == /\ "swap" \in Ops
                   /\ UNCHANGED <<disk, src, mem>>
                   /\ Step([name |-> "swap", i |-> i, j |-> j])
 
-\* Motl(df).write_out(path, "emmotl")  and  EmMotl(df).write_out(path)
-WriteVia(path) == /\ path \in Ops
-                  /\ disk' = Encode(tbl)
-                  /\ src' = tbl
-                  /\ UNCHANGED <<tbl, mem>>
-                  /\ Step([name |-> path])
+\* Motl(df).write_out(path, "emmotl")  and  EmMotl(df [, header = h]).write_out(path).
+\* An EmMotl object may carry an EM header: h = "absent" (argument not given), "none", "empty" ({}), or "other": the
+\* header of another motive-list file, one with hn # N particles (read a list, filter or extend it, write it with the
+\* original header).  The file that is written describes the list that is written: the header argument is immaterial.
+OtherN(n) == IF n = 1 THEN 3 ELSE IF n % 2 = 0 THEN n - 1 ELSE n + 2
+WriteVia(path, h) == /\ path \in Ops
+                     /\ path = "write_motl" => h = "absent"
+                     /\ disk' = Encode(tbl)
+                     /\ src' = tbl
+                     /\ UNCHANGED <<tbl, mem>>
+                     /\ Step([name |-> path, hdr |-> h, hn |-> IF h = "other" THEN OtherN(NRows(tbl)) ELSE 0])
+
+\* the number of particles of the list at hand changes (the list is filtered / extended) before it is written
+DropRow(r) == /\ "droprow" \in Ops
+              /\ NRows(tbl) >= 2
+              /\ tbl' = [tbl EXCEPT !.cells = [k \in 1..(NRows(tbl) - 1) |-> IF k < r THEN tbl.cells[k] ELSE tbl.cells[k + 1]]]
+              /\ UNCHANGED <<disk, src, mem>>
+              /\ Step([name |-> "droprow", r |-> r])
+DupRows == /\ "duprows" \in Ops
+           /\ NRows(tbl) <= 3
+           /\ tbl' = [tbl EXCEPT !.cells = tbl.cells \o tbl.cells]
+           /\ UNCHANGED <<disk, src, mem>>
+           /\ Step([name |-> "duprows"])
 
 \* Motl.load(path)
 Load == /\ "load" \in Ops
@@ -129,8 +147,10 @@ Init == /\ tbl \in InitTables
 
 Next == /\ d < MaxDepth
         /\ \/ \E i, j \in SwapPos : i < j /\ SwapCols(i, j)
-           \/ WriteVia("write_motl")
-           \/ WriteVia("write_emmotl")
+           \/ WriteVia("write_motl", "absent")
+           \/ \E h \in HdrSet : WriteVia("write_emmotl", h)
+           \/ \E r \in 1..NRows(tbl) : DropRow(r)
+           \/ DupRows
            \/ Load
            \/ Adopt
 
@@ -164,7 +184,7 @@ C01_OrderIrrelevantStep == [][op'.name = "swap" => Encode(tbl') = Encode(tbl) /\
 \* ... and every table writes the file of its canonically ordered twin
 C01_OrderIrrelevant == Encode(tbl) = Encode(Canonical(tbl))
 
-\* both write paths produce the same document (the action is the same function of the table)
+\* both write paths, and every header argument, produce the same document (a function of the table alone)
 C01_PathsAgree == [][IsWrite(op') => disk' = Encode(Canonical(tbl))]_vars
 
 \* writing what was loaded reproduces the file (float32 values are their own rounding)
@@ -182,7 +202,7 @@ TypeOK == /\ IsTable(tbl)
 NoRewrite == ~(IsWrite(op') /\ disk # NoFile)
 PreJ(o) == CASE IsWrite(o) -> [tbl |-> TJ(tbl)]
              [] o.name = "load" -> [disk |-> DJ(disk)]
-             [] o.name = "swap" -> [tbl |-> TJ(tbl)]
+             [] o.name \in {"swap", "droprow", "duprows"} -> [tbl |-> TJ(tbl)]
              [] OTHER -> [mem |-> TJ(mem)]
 PostJ(o) == CASE IsWrite(o) -> [disk |-> DJ(disk'), tbl_unchanged |-> (tbl' = tbl)]
               [] o.name = "load" -> [mem |-> TJ(mem')]
@@ -195,6 +215,16 @@ EmitHist == \/ EmitMode # "hist"
             \/ PrintT(ToJson([hist |-> [i \in 1..Len(hist) |->
                     [op |-> hist[i].op,
                      post |-> [tbl |-> TJ(hist[i].tbl), disk |-> DJ(hist[i].disk), mem |-> TJ(hist[i].mem)]]]]))
+
+\* ACTION_CONSTRAINT for the route run: write, load, go on with the loaded list, filter / extend it, let it write itself
+RouteOnly == CASE d = 0 -> IsWrite(op')
+               [] d = 1 -> op'.name = "load"
+               [] d = 2 -> op'.name = "adopt"
+               [] d = 3 -> op'.name \in {"droprow", "duprows"}
+               [] OTHER -> op'.name = "write_emmotl"
+
+\* CONSTRAINT of the route run: only complete routes are printed
+EmitRouteHist == IF d < MaxDepth THEN TRUE ELSE IF op.name = "write_emmotl" THEN EmitHist ELSE FALSE
 
 View == <<tbl, disk, src, mem>>
 =============================================================================
